@@ -220,6 +220,12 @@ StepRules(st, self, types, cache) ==
   \cup (IF ((isReqStim \/ isRespStim) /\ m.kind = "Update" /\ has /\ ~term)
            => (IF m.isReq THEN post.rp = pre.rp ELSE post.ip = pre.ip)
         THEN {} ELSE {"C11.otherFlagOnly"})
+  (* the responder's own resume by way of a validation update is a local resume like any other: it is applied to the transport and announced there,     *)
+  (* whatever the OTHER party's flag says, and it leaves that flag alone                                                                               *)
+  \cup (IF (k = "UpdateValidation" /\ has /\ ~term /\ ~amInit /\ script.accepted /\ ~script.err /\ st.ret = "nil" /\ pre.status \notin Cleanup \cup InFinalization
+             /\ RespPausedView(pre) /\ ~stayAfter)
+           => (Has(TrOf(st.tr, "resume"), LAMBDA t : ~t.msg.paused /\ t.msg.accepted) /\ post.ip = pre.ip)
+        THEN {} ELSE {"C11.validationResume"})
   (* ---------------- C19 (manager level record rules) ---------------- *)
   \cup (IF (k = "SendVoucher" /\ has /\ ~term /\ amInit)
            => (IF s.sendFail = << >> THEN post.vouchers = Append(pre.vouchers, m.v) ELSE post.vouchers = pre.vouchers) /\ post.results = pre.results
